@@ -166,6 +166,31 @@ func init() {
 			"distinct = layout (shape, row groups, pages per chunk, codecs, options); non-trivial = >= 2 row groups or a multi-page chunk",
 		Require: []string{"files_library_written", "files_foreign_written", "files_with_3_pages_and_2_row_groups", "atoffset_calls"},
 	})
+	addSpec(&Spec{ID: "C07", Title: "level streams are valid hybrid RLE; encode/decode are inverses", Level: "exploration",
+		Shapes: []string{"p8"},
+		Rule: "encoder: every level sequence up to a length bound per width (observed_maxima exhaustive_encoder_len_w*) plus run-structured sequences (constant/random/ramp segments of lengths around 8, 63 groups, 2- and 3-byte headers, at every alignment) " +
+			"is encoded by internal/rle and judged by the strict specification decoder; decoder: the same sequences re-encoded by the reference under all segmentations (short) or 6 seeded styles and decoded by internal/rle, " +
+			"checking values, padding < 8 and bytes consumed with trailing data present; the public column API (OptionalField.DoWrite/DoRead) repeats both directions; distinct = block / sequence id",
+		Require:    []string{"encoder_closed_run_at_63_groups", "decoder_runs_over_63_groups", "decoder_rle_2byte_header", "encoder_header_bytes_2", "decoder_exhaustive_segmentations", "public_pages_written", "public_pages_read"},
+		Exhaustive: func(r *Run) bool { return false },
+		Extra: func(r *Run, cov map[string]interface{}) {
+			cov["exhaustive_part"] = fmt.Sprintf("encoder: all sequences of length <= %d/%d/%d/%d for widths 1/2/3/4; decoder: all segmentations of all sequences of length <= %d/%d/%d/%d",
+				r.M.Maxes["exhaustive_encoder_len_w1"], r.M.Maxes["exhaustive_encoder_len_w2"], r.M.Maxes["exhaustive_encoder_len_w3"], r.M.Maxes["exhaustive_encoder_len_w4"],
+				r.M.Maxes["exhaustive_decoder_len_w1"], r.M.Maxes["exhaustive_decoder_len_w2"], r.M.Maxes["exhaustive_decoder_len_w3"], r.M.Maxes["exhaustive_decoder_len_w4"])
+		},
+	})
+	addSpec(&Spec{ID: "C17", Title: "bit-packing of 8-value groups is exactly invertible and spec-ordered", Level: "exploration",
+		Rule: "for the checked-in internal/bitpack AND a package freshly generated by cmd/bitpackgen from the current tree: every 8-tuple of w-bit values for w=1,2,3 (and w=4 in thorough: all 2^32) is packed, compared with a bit-at-a-time LSB-first reference and unpacked; " +
+			"every w-byte group is unpacked, compared and re-packed; quick w=4 covers all tuples in which any 4 positions range over all 16 values and the rest over {0,15}, and byte groups from a nibble palette; " +
+			"in situ: levels written/read through OptionalField.DoWrite/DoRead; distinct = (implementation, width, block)",
+		EvalCounter: "evaluations_total",
+		Require:     []string{"evals_w1_checked-in", "evals_w2_checked-in", "evals_w3_checked-in", "evals_w4_checked-in", "evals_w1_fresh", "evals_w2_fresh", "evals_w3_fresh", "evals_w4_fresh", "insitu_groups_written", "insitu_groups_read"},
+		Exhaustive:  func(r *Run) bool { return r.Thorough() },
+		Extra: func(r *Run, cov map[string]interface{}) {
+			cov["exhaustive_widths"] = map[string]bool{"1": true, "2": true, "3": true, "4": r.Thorough()}
+		},
+		Custom: customC17,
+	})
 }
 
 func runCheck(prop, tier string, seed int64, only string) int {
